@@ -39,6 +39,12 @@ func run(c *core.Ctx) {
 			c.Outcome("non-pointer-message-type-skipped")
 			return
 		}
+		if strings.Contains(rt.Elem().PkgPath(), "/internal/impl") {
+			// a legacy (pre-APIv2) Go type seen through the runtime's wrapper: not a generated
+			// message type in the sense of the property; its nil pointer is the wrapper's, not the user's
+			c.Outcome("legacy-wrapper-type-skipped")
+			return
+		}
 		nilMsg := reflect.Zero(rt).Interface().(proto.Message)
 		c.Eval(1)
 		c.Distinct(name)
